@@ -954,3 +954,84 @@ def rule_ref1(ctx):
                         norm_stmt(rets[0]),
                         "the conjugate is a row matrix but is wrapped with "
                         f"column_vectors={cv}", instance="reflection_across")
+
+
+# ---------------------------------------------------------------------------
+def rule_mean1(ctx, rels, scope=None, min_sites=0):
+    r = ctx.r
+    r.rule("MEAN1", "an average written as `X.sum(axis=k) / <size of X>` "
+                    "divides by the size of the axis it summed over "
+                    "(X.shape[k] with the same, end-relative k); "
+                    "`len(X)` / `X.shape[0]` is the size of the first "
+                    "COMPOSITE axis as soon as the object is an array of "
+                    "objects")
+    n_s = 0
+
+    def sum_of(e):
+        """(array text, axis) if e is X.sum(axis=k) / np.sum(X, axis=k)"""
+        if not isinstance(e, ast.Call):
+            return None
+        axis = None
+        for k in e.keywords:
+            if k.arg == "axis":
+                axis = const_value(k.value)
+        if isinstance(e.func, ast.Attribute) and e.func.attr == "sum" \
+                and dotted(e.func.value) not in ("np", "numpy"):
+            if axis is None and e.args:
+                axis = const_value(e.args[0])
+            return dotted(e.func.value), axis
+        if dotted(e.func) in ("np.sum", "numpy.sum") and e.args:
+            if axis is None and len(e.args) > 1:
+                axis = const_value(e.args[1])
+            return dotted(e.args[0]), axis
+        return None
+
+    def size_of(e):
+        """(array text, axis) if e is X.shape[j] / len(X) / np.shape(X)[j]"""
+        if isinstance(e, ast.Call) and dotted(e.func) == "len" and e.args:
+            return dotted(e.args[0]), 0
+        if isinstance(e, ast.Subscript):
+            j = const_value(e.slice)
+            v = e.value
+            if isinstance(v, ast.Attribute) and v.attr == "shape":
+                return dotted(v.value), j
+            if isinstance(v, ast.Call) and dotted(v.func) in (
+                    "np.shape", "numpy.shape") and v.args:
+                return dotted(v.args[0]), j
+        return None
+    for rel in rels:
+        m = ctx.p.module_by_rel(rel)
+        for f in ctx.p.all_functions:
+            if f.module is not m:
+                continue
+            if scope is not None and f not in scope:
+                continue
+            for n in ast.walk(f.node):
+                if not (isinstance(n, ast.BinOp)
+                        and isinstance(n.op, (ast.Div, ast.FloorDiv))):
+                    continue
+                s = sum_of(n.left)
+                d = size_of(n.right)
+                if s is None or d is None or s[0] != d[0]:
+                    continue
+                if not isinstance(s[1], int) or not isinstance(d[1], int):
+                    continue
+                n_s += 1
+                r.analysed(f)
+                inst = f"{f.qualname}:mean[{s[0]}]"
+                if s[1] == d[1]:
+                    r.ok("MEAN1", inst, loc(f, n), dotted(n)[:100],
+                         f"sums and divides over axis {s[1]}")
+                else:
+                    r.violation(
+                        "MEAN1", f"{f.fq}|mean:{s[0]}", loc(f, n),
+                        dotted(n)[:160],
+                        f"`{s[0]}` is summed over axis {s[1]} but divided by "
+                        f"the size of axis {d[1]}: the two agree only for a "
+                        "single object (or a particular dimension); for an "
+                        "array of objects the midpoint is scaled by the "
+                        "wrong count", instance=inst)
+    if n_s < min_sites:
+        raise AnalysisError(f"MEAN1: {n_s} mean idiom(s) found, {min_sites} "
+                            "confirmed by hand (stale table)")
+    return n_s
